@@ -127,7 +127,12 @@ func runScenario(run *mon.Run, sc scen) {
 				rs := client.DoMultiCache(ctx, rueidis.CT(client.B().Get().Key("ck").Cache(), time.Minute), rueidis.CT(client.B().Get().Key("ck2-"+c.uid).Cache(), time.Minute))
 				err = checkStr(rs[0], "cv")
 			case "Receive":
-				err = client.Receive(ctx, client.B().Subscribe().Channel("chan-"+c.uid).Build(), func(rueidis.PubSubMessage) {})
+				// every other Receive is fully established (waiting for messages), the others are still waiting for the SUBSCRIBE reply
+				ch := "chan-" + c.uid
+				if i%2 == 0 {
+					ch = "established-" + fmt.Sprint(i)
+				}
+				err = client.Receive(ctx, client.B().Subscribe().Channel(ch).Build(), func(rueidis.PubSubMessage) {})
 				if err == nil {
 					err = fmt.Errorf("receive returned nil without unsubscribe")
 				}
@@ -166,7 +171,8 @@ func runScenario(run *mon.Run, sc scen) {
 	case "kill":
 		srv.KillAll(addr)
 	case "stall":
-		// the server simply never answers again: the keep-alive ping and the write timeout must notice
+		// the server simply never answers again (not even PING): the keep-alive ping and the write timeout must notice
+		srv.Plan(&fakeredis.Rule{Name: "silent", Match: func(*fakeredis.Conn, []string) bool { return true }, Action: fakeredis.Action{Stall: true}})
 	case "cut":
 		// the first held reply of every connection starts to flow and the connection is cut in the middle of the frame
 		for _, c := range calls {
@@ -174,6 +180,8 @@ func runScenario(run *mon.Run, sc scen) {
 				node.Exec("RPUSH", "list-"+c.uid, "x")
 			}
 		}
+		time.Sleep(1500 * time.Millisecond)
+		srv.KillAll(addr) // connections that carried no held command (an idle, established Receive) are dropped instead
 	case "close":
 		go func() { client.Close(); closeReturned.Store(true) }()
 		time.Sleep(4 * time.Second) // ConnWriteTimeout (2 s) + close grace (1 s) + margin, virtual
